@@ -336,13 +336,13 @@ Definition handle_write_all (c : cfg) (s : sys) (hd : handle) (d : content) : sy
   end
   end.
 
-(* the header Update receives from syncWithoutLocking: tar.FileInfoHeader of fs.FileInfo keeps
-   name, mode, size and the modification time only *)
+(* the header Update receives from syncWithoutLocking: name, mode, size and modification time of the handle's
+   FileInfo, owner and access/change times of the entry (handed to tar.FileInfoHeader through Sys()) *)
 Definition flush_hdr (hd : handle) (size : N) : hdr :=
   let i := hd_info hd in
   {| h_tf := TypeReg; h_name := hd_path hd; h_link := hd_link hd; h_size := size; h_mode := perm_bits (h_mode i);
-     h_uid := 0; h_gid := 0; h_uname := []; h_gname := [];
-     h_mtime := h_mtime i; h_atime := 0%Z; h_ctime := 0%Z; h_pax := [] |}.
+     h_uid := h_uid i; h_gid := h_gid i; h_uname := h_uname i; h_gname := h_gname i;
+     h_mtime := h_mtime i; h_atime := h_atime i; h_ctime := h_ctime i; h_pax := [] |}.
 
 Definition handle_close (c : cfg) (s : sys) (hd : handle) (buf : option content) : sys * outc :=
   match buf with
